@@ -1,167 +1,499 @@
 """C04 - page breaks occur only when required, and always when required.
 
-R04.1 decision table of the loop body of PageBreakCalculator._assign_pages == spec
-(break <=> current_rows>0 and (subline start or (new_page and group start) or overflow)), post-state
-(page assigned unconditionally, rows reset/accumulated), overflow guard normal form, available rows;
+All rules follow the recognise-by-role / verify-strictly / gap-if-unrecognised policy.
+
+R04.1 the loop of PageBreakCalculator._assign_pages that stores each row's page is evaluated as a decision
+table (symbolic interpretation of the loop body, so temporaries, guard nesting and evaluation order do not
+matter).  Atoms are classified by meaning with polarity (subline start, group start, new_page, "a previous
+row exists", "the page holds something", overflow as an integer linear form) and the table is compared
+with  break <=> current_rows>0 and (subline start or (new_page and group start) or overflow)  on every
+valuation that respects the loop invariant current_rows>0 <=> i>0 (current_rows is 0 at the first row and
+every row adds >= 1, R04.6).  A deviation that shows for every value of the uninterpreted atoms is a
+violation; one that depends on an uninterpreted atom is an analysis gap.  Post-state (page stored with the
+post-increment number, fill counter reset/accumulated), available rows, initial state, row order and
+shortcut returns are verified on the recognised constructs.
 R04.2 forced-break arguments per strategy; R04.3 no look-ahead in the pagination loops;
 R04.4 group-start flags compare consecutive rows column by column; R04.5 pages materialised in
-ascending page number from [min,max] row-index ranges, empty pages skipped.
+ascending page number from [min,max] row-index ranges; R04.6 every row adds >= 1.
 """
 from __future__ import annotations
 
 import ast
 import itertools
+from types import SimpleNamespace
 
+from ..astmatch import assignments, guard_atoms, guards, leaves, match, resolve, strip_wrappers
 from ..dtab import DT, Sym, Unsupported, enumerate_block
-from ..linform import compare_form, linform, single_assign_env
+from ..linform import compare_form, linform
 from ..pm import AnalysisError, dotted, unparse, walk_no_nested
 from ..report import Ctx
 
 STRATS = ("DefaultPaginationStrategy.paginate", "PageByStrategy.paginate", "SublineStrategy.paginate")
 
 
+class Unrecognised(Exception):
+    """a construct a rule reasons about could not be re-identified: reported with ctx.gap, never as a violation"""
+
+
+# ------------------------------------------------------------------------------------------------ helpers
+
+def _anc(n, stop):
+    p = getattr(n, "_parent", None)
+    while p is not None and p is not stop:
+        yield p
+        p = getattr(p, "_parent", None)
+
+
+def _params(fn) -> list[str]:
+    a = fn.args
+    return [x.arg for x in list(a.posonlyargs) + list(a.args) + list(a.kwonlyargs)]
+
+
+def _const(e, v) -> bool:
+    return isinstance(e, ast.Constant) and type(e.value) is type(v) and e.value == v
+
+
+def _name(n: str) -> ast.Name:
+    return ast.Name(id=n, ctx=ast.Load())
+
+
+def _peel(e: ast.AST) -> ast.AST:
+    """drop value-preserving wrappers: cast(T, x), int(x), bool(x)"""
+    while True:
+        if isinstance(e, ast.Call) and isinstance(e.func, ast.Name) and e.func.id == "cast" and len(e.args) == 2:
+            e = e.args[1]
+        elif isinstance(e, ast.Call) and isinstance(e.func, ast.Name) and e.func.id in ("int", "bool") and len(e.args) == 1 and not e.keywords:
+            e = e.args[0]
+        else:
+            return e
+
+
+def _inside(node, container) -> bool:
+    return any(p is container for p in _anc(node, None)) or node is container
+
+
+def _enclosing_for(node, stop):
+    for p in _anc(node, stop):
+        if isinstance(p, ast.For):
+            return p
+    return None
+
+
+def _target_names(t) -> list[str]:
+    return [e.id for e in ast.walk(t) if isinstance(e, ast.Name)]
+
+
+def _local_value(name: str, scope: ast.AST, fn: ast.AST):
+    """the value a local name stands for at a use inside `scope` (a loop): its only assignment inside the
+    scope if there is exactly one, else its only assignment in the function; None when ambiguous"""
+    inner = [a.value for a in ast.walk(scope) if isinstance(a, ast.Assign) and len(a.targets) == 1
+             and isinstance(a.targets[0], ast.Name) and a.targets[0].id == name]
+    if len(inner) == 1:
+        return inner[0]
+    if inner:
+        return None
+    vals = assignments(fn).get(name, [])
+    if len(vals) == 1 and not (isinstance(vals[0], ast.Constant) and isinstance(vals[0].value, str) and vals[0].value.startswith("<")):
+        return vals[0]
+    return None
+
+
+def lin_local(e: ast.AST, scope: ast.AST, fn: ast.AST) -> dict:
+    """linear form of `e` with the scope's single-assignment arithmetic temporaries expanded (transitively)"""
+    env: dict = {}
+    todo = [e]
+    while todo:
+        x = todo.pop()
+        for nme in {n.id for n in ast.walk(x) if isinstance(n, ast.Name)} - set(env):
+            v = _local_value(nme, scope, fn)
+            if v is None:
+                continue
+            v = _peel(v)
+            if isinstance(v, (ast.BinOp, ast.Name, ast.Constant, ast.Subscript)) and not any(isinstance(y, ast.Name) and y.id == nme for y in ast.walk(v)):
+                env[nme] = v
+                todo.append(v)
+    return dict(linform(e, env))
+
+
+def _gt0(c: ast.Compare):
+    """integer normal form of a comparison: ('>', lf) meaning lf > 0 over the integers ('>=' folded in),
+    or ('==' | '!=', lf); None if not a single comparison"""
+    cf = compare_form(c)
+    if cf is None:
+        return None
+    op, lf = cf
+    if op == ">=":
+        lf = dict(lf)
+        lf[""] = lf.get("", 0) + 1
+        if lf[""] == 0:
+            del lf[""]
+        op = ">"
+    return op, lf
+
+
+def _empty_tests(frame: str) -> set[str]:
+    """guard atoms (astmatch.guard_atoms rendering) that imply the frame has no rows"""
+    return {f"{frame}.height == 0", f"0 == {frame}.height", f"len({frame}) == 0", f"{frame}.is_empty()", f"!{frame}.height",
+            f"!len({frame})", f"{frame}.height < 1", f"{frame}.height <= 0", f"{frame}.shape[0] == 0", f"!{frame}.shape[0]"}
+
+
+def _nonempty_tests(frame: str) -> set[str]:
+    return {f"{frame}.height != 0", f"0 != {frame}.height", f"len({frame}) != 0", f"!{frame}.is_empty()", f"{frame}.height",
+            f"len({frame})", f"{frame}.height >= 1", f"{frame}.height > 0", f"{frame}.shape[0] != 0", f"{frame}.shape[0] > 0"}
+
+
+# ------------------------------------------------------------------------------------------------ R04.1
+
+def assign_loop(pm) -> SimpleNamespace:
+    """re-identify, by role, the greedy loop of _assign_pages and its state variables:
+    rv the row variable, iv the index variable (or None), P the page counter (what is stored to row['page']),
+    R the fill counter (the other loop-carried variable), A the available rows (loop-invariant local that
+    derives from pagination.nrow), src the iterated expression"""
+    fi = pm.func("PageBreakCalculator._assign_pages")
+    fn = fi.node
+    found = []
+    for lp in walk_no_nested(fn):
+        if not isinstance(lp, ast.For):
+            continue
+        tn = _target_names(lp.target)
+        stores = [s for s in ast.walk(lp) if isinstance(s, ast.Assign) and len(s.targets) == 1 and isinstance(s.targets[0], ast.Subscript)
+                  and isinstance(s.targets[0].value, ast.Name) and s.targets[0].value.id in tn and _const(s.targets[0].slice, "page")]
+        if stores:
+            found.append((lp, stores))
+    if len(found) != 1:
+        raise Unrecognised(f"the loop of _assign_pages that stores each row's page could not be re-identified ({len(found)} candidates)")
+    lp, stores = found[0]
+    it = lp.iter
+    iv = None
+    if isinstance(it, ast.Call) and dotted(it.func) == "enumerate" and it.args and isinstance(lp.target, ast.Tuple) \
+            and len(lp.target.elts) == 2 and all(isinstance(e, ast.Name) for e in lp.target.elts):
+        start = it.args[1] if len(it.args) > 1 else next((k.value for k in it.keywords if k.arg == "start"), None)
+        if start is not None and not _const(start, 0):
+            raise Unrecognised(f"the page-assignment loop counts from `{unparse(start)}`")
+        iv, rv = lp.target.elts[0].id, lp.target.elts[1].id
+        src = it.args[0]
+    elif isinstance(lp.target, ast.Name):
+        rv, src = lp.target.id, it
+    else:
+        raise Unrecognised(f"loop header `for {unparse(lp.target)} in {unparse(it)}` of the page-assignment loop")
+    if any(s.targets[0].value.id != rv for s in stores):
+        raise Unrecognised("the page is stored to something else than the loop's row variable")
+    pvals = {unparse(s.value) for s in stores}
+    if len(pvals) != 1 or not isinstance(stores[0].value, ast.Name):
+        raise Unrecognised(f"the value stored as the row's page ({sorted(pvals)}) is not one page-counter variable")
+    P = stores[0].value.id
+    inner_ids = {id(n) for n in ast.walk(lp)}
+
+    def assigned(nodes):
+        out = set()
+        for n in nodes:
+            if isinstance(n, ast.Assign):
+                out.update(t.id for t in n.targets if isinstance(t, ast.Name))
+            elif isinstance(n, (ast.AugAssign, ast.AnnAssign)) and isinstance(n.target, ast.Name):
+                out.add(n.target.id)
+        return out
+    asg_in = assigned(ast.walk(lp))
+    asg_out = assigned(n for n in walk_no_nested(fn) if id(n) not in inner_ids)
+    carried = sorted((asg_in & asg_out) - {P, rv, iv})
+    if P not in asg_in or P not in asg_out:
+        raise Unrecognised(f"the page counter `{P}` is not a loop-carried variable")
+    if len(carried) != 1:
+        raise Unrecognised(f"the fill counter of the page-assignment loop could not be re-identified (loop-carried variables besides the page counter: {carried})")
+    R = carried[0]
+    params = _params(fn)
+    loads = {n.id for n in ast.walk(lp) if isinstance(n, ast.Name) and isinstance(n.ctx, ast.Load)}
+    asg = assignments(fn)
+    A = None
+    cands = []
+    for nme in sorted(loads - asg_in - set(params) - {P, R, rv, iv}):
+        if len(asg.get(nme, [])) != 1:
+            continue
+        val = resolve(_name(nme), fn)
+        if any(x.endswith(".nrow") or x == "nrow" for x in leaves(val)):
+            cands.append(nme)
+    if len(cands) == 1:
+        A = cands[0]
+    frame = next((p for p in params if p not in ("self", "cls")), None)
+    return SimpleNamespace(fi=fi, fn=fn, lp=lp, iv=iv, rv=rv, src=src, P=P, R=R, A=A, stores=stores, frame=frame, params=params,
+                           h=f"{rv}[total_rows]")
+
+
+def _classify(key: str, L) -> tuple[str, bool, int | None]:
+    """meaning of a decision atom: (role, polarity, overflow offset).  Roles: S subline start, G group start,
+    N new_page, I a previous row exists (i>0), C the page holds something (current_rows>0), O overflow
+    (current_rows + height - available + k > 0; k=0 is the required guard), O? an overflow-like test of another
+    shape, ? unrecognised"""
+    try:
+        e = ast.parse(key, mode="eval").body
+    except SyntaxError:
+        return ("?", True, None)
+    e = _peel(e)
+    if isinstance(e, ast.Subscript) and isinstance(e.value, ast.Name) and e.value.id == L.rv:
+        k = unparse(e.slice)
+        if k == "is_subline_start":
+            return ("S", True, None)
+        if k == "is_group_start":
+            return ("G", True, None)
+    if isinstance(e, ast.Name):
+        if e.id == "new_page":
+            return ("N", True, None)
+        if e.id == L.R:
+            return ("C", True, None)
+        if L.iv and e.id == L.iv:
+            return ("I", True, None)
+    if isinstance(e, ast.Compare):
+        g = _gt0(e)
+        if g is not None:
+            op, lf = g
+            for v, role in ((L.iv, "I"), (L.R, "C")):
+                if v is None:
+                    continue
+                if (op == ">" and lf == {v: 1}) or (op == "!=" and lf == {v: 1}):
+                    return (role, True, None)
+                if (op == ">" and lf == {v: -1, "": 1}) or (op == "==" and lf == {v: 1}):
+                    return (role, False, None)
+            keys = set(lf) - {""}
+            if L.A and op == ">" and keys == {L.R, L.h, L.A}:
+                co = (lf[L.R], lf[L.h], lf[L.A])
+                if co == (1, 1, -1):
+                    return ("O", True, lf.get("", 0))
+                if co == (-1, -1, 1):
+                    return ("O", False, 1 - lf.get("", 0))
+            if (L.A and L.A in keys) or (L.R in keys and L.h in keys):
+                return ("O?", True, None)
+    return ("?", True, None)
+
+
+def _lf_of(v) -> dict | None:
+    """linear form of a symbolic value of the interpreter (Sym path or number)"""
+    if isinstance(v, bool):
+        return None
+    if isinstance(v, (int, float)):
+        return {"": v} if v else {}
+    if isinstance(v, Sym):
+        try:
+            return linform(ast.parse(v.path, mode="eval").body)
+        except SyntaxError:
+            return None
+    return None
+
+
 def r04_1(ctx: Ctx, mode: str = "full") -> None:
     """mode 'full' (C04): break <=> spec.  mode 'budget' (C03): a break must happen when the row does not fit
     (over-filling direction only).  mode 'assign' (C02): every row gets exactly one page, counter monotone."""
     pm = ctx.pm
-    fi = pm.func("PageBreakCalculator._assign_pages")
-    loops = [n for n in walk_no_nested(fi.node) if isinstance(n, ast.For)]
-    main = [lp for lp in loops if any(isinstance(a, ast.AugAssign) and unparse(a.target) == "current_page" for a in ast.walk(lp))]
-    if len(main) != 1:
-        ctx.violation("R04.1", fi.short, "greedy loop missing", fi.where(),
-                      "_assign_pages no longer assigns pages by one greedy pass over the rows (a row that does not fit must move whole to the next page)")
+    try:
+        L = assign_loop(pm)
+    except Unrecognised as e:
+        ctx.gap("R04.1", str(e))
         return
-    lp = main[0]
-    if not (isinstance(lp.iter, ast.Call) and dotted(lp.iter.func) == "enumerate" and isinstance(lp.target, ast.Tuple)):
-        ctx.violation("R04.1", fi.short, "loop header " + unparse(lp.iter), fi.where(lp), "the page-assignment loop does not enumerate the rows in order")
-        return
-    iv, rv = lp.target.elts[0].id, lp.target.elts[1].id
+    fi, fn, lp, iv, rv, P, R, A = L.fi, L.fn, L.lp, L.iv, L.rv, L.P, L.R, L.A
+    if mode != "assign":
+        if A is None:
+            ctx.gap("R04.1", "the available-rows value used by the page-assignment loop could not be re-identified")
+            return
+        if "new_page" not in L.params:
+            ctx.gap("R04.1", "_assign_pages no longer has a new_page parameter")
+            return
     dt = DT(pm, classes={"self": "PageBreakCalculator"})
+    base_names = [x for x in (iv, rv, P, R, A, "new_page") if x]
 
     def env0():
-        return {iv: Sym(iv), rv: Sym(rv), "current_page": Sym("current_page"), "current_rows": Sym("current_rows"),
-                "available_rows": Sym("available_rows"), "new_page": Sym("new_page"), "self": Sym("self", "PageBreakCalculator")}
+        env = {x: Sym(x) for x in base_names}
+        env["self"] = Sym("self", "PageBreakCalculator")
+        return env
     try:
-        leaves = enumerate_block(dt, lp.body, env0, fi)
+        lv = enumerate_block(dt, lp.body, env0, fi)
     except Unsupported as e:
         raise AnalysisError(f"_assign_pages loop body outside the decision-table subset: {e}")
-    atoms = sorted(dt.discovered)
-    # classify atoms
-    role = {}
-    for a in atoms:
-        t = a.replace(" ", "")
-        if "is_subline_start" in t:
-            role[a] = "S"
-        elif "is_group_start" in t:
-            role[a] = "G"
-        elif t in ("bool(new_page)",):
-            role[a] = "N"
-        elif t in (f"{iv}>0",):
-            role[a] = "I"
-        elif t in ("current_rows>0",):
-            role[a] = "C"
-        elif "available_rows" in t and "current_rows" in t:
-            role[a] = "O"
-        else:
-            role[a] = "?" + a
-    ctx.extra["atoms"] = role
-    unknown = [a for a, r in role.items() if r.startswith("?")]
-    missing = [r for r in "SGNICO" if r not in role.values()]
-    ctx.instance("R04.1", fi.where(lp), f"loop body decision table: {len(leaves)} leaves over atoms {role}")
-    if mode == "budget":
-        missing = [m for m in missing if m in "CO"]
-    elif mode == "assign":
-        missing = []
-    if missing:
-        ctx.violation("R04.1", fi.short, "atoms missing " + ",".join(missing), fi.where(lp),
-                      f"the break decision no longer consults {missing} (S=subline start, G=group start, N=new_page, I=i>0, C=current_rows>0, O=overflow)")
+    role = {a: _classify(a, L) for a in sorted(dt.discovered)}
+    ctx.extra["atoms"] = {a: ("" if r[1] else "not ") + r[0] for a, r in role.items()}
+    ctx.instance("R04.1", fi.where(lp), f"loop body decision table: {len(lv)} leaves over atoms {ctx.extra['atoms']}")
+    has_i = any(r[0] == "I" for r in role.values())
+    unknown = sorted(a for a, r in role.items() if r[0] in ("?", "O?"))
+
+    def consistent(v, val):
+        for a, x in v.items():
+            r, pol, _k = role[a]
+            if r in val and x != (val[r] if pol else not val[r]):
+                return False
+        return True
+
+    def is_break(env):
+        lf = _lf_of(env.get(P))
+        if lf == {P: 1, "": 1}:
+            return True
+        if lf == {P: 1}:
+            return False
+        return None
     rows = 0
-    for S, G, N, I, C, O in itertools.product([False, True], repeat=6):
-        if C and not I:
-            continue      # current_rows > 0 implies a previous row exists (every row adds >= 1, see R04.6)
-        # find the leaf consistent with this valuation
-        want = C and (S or (N and G) or O)
-        matches = []
-        for v, env, eff, outcome in leaves:
-            ok = True
-            for a, val in v.items():
-                r = role.get(a, "?")
-                cur = {"S": S, "G": G, "N": N, "I": I, "C": C, "O": O}.get(r)
-                if cur is not None and cur != val:
-                    ok = False
-            if ok:
-                matches.append((v, env, eff, outcome))
-        for v, env, eff, outcome in matches:
-            rows += 1
-            cp = env.get("current_page")
-            broke = isinstance(cp, Sym) and cp.path.replace(" ", "") == "current_page+1"
-            same = isinstance(cp, Sym) and cp.path == "current_page"
-            if not (broke or same):
-                ctx.violation("R04.1", fi.short, "page counter " + str(cp), fi.where(lp), f"page counter becomes {cp}; it may only stay or increase by one per row")
-                continue
-            extra = {a: val for a, val in v.items() if role.get(a, "?").startswith("?")}
-            relevant = broke != want
-            if mode == "budget":
-                relevant = (C and O) and not broke          # only a missing overflow break over-fills a page
-            elif mode == "assign":
-                relevant = False
-            if relevant:
-                ctx.violation("R04.1", fi.short, f"break={broke} at S={S},G={G},N={N},I={I},C={C},O={O}" + (f",{extra}" if extra else ""), fi.where(lp),
-                              f"_assign_pages {'breaks' if broke else 'does not break'} at subline_start={S}, group_start={G}, new_page={N}, i>0={I}, "
-                              f"current_rows>0={C}, overflow={O}{' and ' + str(extra) if extra else ''}; required: break <=> current_rows>0 and (subline start or (new_page and group start) or overflow)")
-            # post-state
-            st = [e for e in eff if e[0] == "store" and e[1] == rv and e[2].strip("[]") == "page"]
-            if len(st) != 1 or st[0][3] != (cp.path):
-                ctx.violation("R04.1", fi.short, "page store " + str(st), fi.where(lp), f"the row's page is not set to the (possibly incremented) current page on the path {v}")
-            cr = env.get("current_rows")
-            crt = cr.path.replace(" ", "") if isinstance(cr, Sym) else str(cr)
-            want_cr = (f"0+{rv}[total_rows]", f"{rv}[total_rows]") if broke else (f"current_rows+{rv}[total_rows]",)
-            if crt not in want_cr:
-                ctx.violation("R04.1", fi.short, f"current_rows -> {crt} (break={broke})", fi.where(lp),
-                              f"after the row, current_rows is `{crt}`; expected {'row height (reset on break)' if broke else 'previous + row height'}")
-            if outcome != "fall":
-                ctx.violation("R04.1", fi.short, f"loop exit {outcome}", fi.where(lp), f"the page-assignment loop leaves early ({outcome}); later rows get no page")
+    undecided = set()
+    for S, G, N, C, O in itertools.product([False, True], repeat=5):
+        for I in ([False, True] if has_i else [None]):
+            if I is not None and C != I:
+                continue      # loop invariant: current_rows is 0 at i == 0, and every row adds >= 1 (R04.6; post-state below), so current_rows > 0 <=> i > 0
+            val = {"S": S, "G": G, "N": N, "C": C, "O": O}
+            if I is not None:
+                val["I"] = I
+            want = C and (S or (N and G) or O)
+            ms = [x for x in lv if consistent(x[0], val)]
+            at = ",".join(f"{k}={val[k]}" for k in ("S", "G", "N", "I", "C", "O") if k in val)
+            bad = []
+            for v, env, eff, outcome in ms:
+                rows += 1
+                broke = is_break(env)
+                if broke is None:
+                    ctx.violation("R04.1", fi.short, "page counter " + str(env.get(P)), fi.where(lp),
+                                  f"page counter becomes {env.get(P)}; it may only stay or increase by one per row")
+                    continue
+                if mode == "full":
+                    wrong = broke != want
+                elif mode == "budget":
+                    wrong = (C and O) and not broke          # only a missing overflow break over-fills a page
+                else:
+                    wrong = False
+                if wrong:
+                    bad.append((v, broke))
+                # post-state (on every feasible path, whatever the mode)
+                st = [e for e in eff if e[0] == "store" and e[1] == rv and str(e[2]).strip("[]") == "page"]
+                cp = env.get(P)
+                if len(st) != 1 or st[0][3] != (cp.path if isinstance(cp, Sym) else cp):
+                    ctx.violation("R04.1", fi.short, "page store " + str(st), fi.where(lp),
+                                  f"the row's page is not set exactly once to the (possibly incremented) current page on the path {v}")
+                cr = _lf_of(env.get(R))
+                want_cr = {L.h: 1} if broke else {R: 1, L.h: 1}
+                if cr != want_cr:
+                    crt = env.get(R).path if isinstance(env.get(R), Sym) else str(env.get(R))
+                    ctx.violation("R04.1", fi.short, f"current_rows -> {crt} (break={broke})", fi.where(lp),
+                                  f"after the row, the fill counter is `{crt}`; expected {'row height (reset on break)' if broke else 'previous + row height'}")
+                if outcome not in ("fall", "continue"):
+                    ctx.violation("R04.1", fi.short, f"loop exit {outcome}", fi.where(lp), f"the page-assignment loop leaves early ({outcome}); later rows get no page")
+            if bad and len(bad) == len(ms):
+                broke = bad[0][1]
+                ctx.violation("R04.1", fi.short, f"break={broke} at {at}", fi.where(lp),
+                              f"_assign_pages {'breaks' if broke else 'does not break'} at subline_start={S}, group_start={G}, new_page={N}, "
+                              f"{'i>0=' + str(I) + ', ' if I is not None else ''}current_rows>0={C}, overflow={O}; "
+                              "required: break <=> current_rows>0 and (subline start or (new_page and group start) or overflow)")
+            elif bad:
+                undecided.add(at)
+    if undecided:
+        ctx.gap("R04.1", f"the break decision also depends on condition(s) that could not be interpreted ({unknown}); "
+                         f"it deviates from the specification for some of their values at {sorted(undecided)[:4]}")
     ctx.extra["table_rows"] = rows
     ctx.extra["exhaustive"] = True
-    # overflow normal form and available rows
-    env = single_assign_env(fi.node)
-    comp = [c for c in ast.walk(lp) if isinstance(c, ast.Compare) and "available_rows" in unparse(c)]
-    for c in comp:
-        cf = compare_form(c, {"row_height": ast.parse(f"{rv}['total_rows']", mode="eval").body})
-        want_cf = (">", {"current_rows": 1, f"{rv}['total_rows']": 1, "available_rows": -1})
-        ctx.instance("R04.1", fi.where(c), f"overflow guard `{unparse(c)}` normal form {cf}")
-        bad_guard = cf != want_cf
-        if mode == "budget" and cf is not None and cf[1] == want_cf[1] and cf[0] in (">", ">="):
-            bad_guard = False          # breaking one row early never over-fills
-        if mode == "assign":
-            bad_guard = False
-        if bad_guard:
-            ctx.violation("R04.1", fi.short, "overflow guard " + unparse(c), fi.where(c),
-                          f"overflow test is `{unparse(c)}`; required: current_rows + row_height - available_rows > 0 (strict)")
-    av = [a for a in walk_no_nested(fi.node) if isinstance(a, ast.Assign) and unparse(a.targets[0]) == "available_rows"]
-    ok = len(av) == 1 and isinstance(av[0].value, ast.Call) and dotted(av[0].value.func) == "max" and len(av[0].value.args) == 2 and \
-        unparse(av[0].value.args[0]) == "1" and linform(av[0].value.args[1]) == {"self.pagination.nrow": 1, "additional_rows_per_page": -1}
-    ctx.instance("R04.1", fi.where(av[0]) if av else fi.where(), f"available_rows = {unparse(av[0].value) if av else '?'}")
-    if not ok:
-        ctx.violation("R04.1", fi.short, "available_rows " + (unparse(av[0].value) if av else "?"), fi.where(), "available rows are not max(1, nrow - additional_rows_per_page)")
+    # overflow guard: integer normal form  current_rows + row_height - available_rows + k > 0, k = 0 required
+    for a, (r, pol, k) in role.items():
+        if r == "O":
+            ctx.instance("R04.1", fi.where(lp), f"overflow guard `{a}` normal form {R} + {L.h} - {A} + {k} > 0{'' if pol else ' (negated)'}")
+            bad_guard = k != 0 if mode == "full" else (k < 0 if mode == "budget" else False)      # breaking early never over-fills
+            if bad_guard:
+                ctx.violation("R04.1", fi.short, "overflow guard " + a, fi.where(lp),
+                              f"overflow test is `{a}`; required: current_rows + row_height - available_rows > 0 (strict)")
+        elif r == "O?" and mode != "assign":
+            ctx.instance("R04.1", fi.where(lp), f"overflow-like guard `{a}`")
+            ctx.violation("R04.1", fi.short, "overflow guard " + a, fi.where(lp),
+                          f"the fill test `{a}` is not of the form current_rows + row_height - available_rows > 0")
+    # available rows = max(1, nrow - reservation)
+    if A is not None:
+        av = resolve(_name(A), fn)
+        ctx.instance("R04.1", fi.where(), f"{A} = {unparse(av)}")
+        inner = None
+        if isinstance(av, ast.Call) and dotted(av.func) == "max" and len(av.args) == 2 and not av.keywords:
+            if _const(av.args[0], 1):
+                inner = av.args[1]
+            elif _const(av.args[1], 1):
+                inner = av.args[0]
+        if inner is None:
+            if mode != "assign":
+                ctx.gap("R04.1", f"the available rows `{unparse(av)}` are not of the recognised form max(1, ...)")
+        elif linform(inner) != {"self.pagination.nrow": 1, "additional_rows_per_page": -1} and mode != "assign":
+            ctx.violation("R04.1", fi.short, "available_rows " + unparse(av), fi.where(), "available rows are not max(1, nrow - additional_rows_per_page)")
     # the greedy loop is the only place where pages are assigned: no shortcut return besides the empty frame
-    rets = [r for r in walk_no_nested(fi.node) if isinstance(r, ast.Return)]
-    for r in rets:
-        guards = [unparse(a.test) for a in _anc(r, fi.node) if isinstance(a, ast.If)]
+    body = fn.body
+    top_of = lambda n: next((i for i, s in enumerate(body) if _inside(n, s)), -1)     # noqa: E731
+    lp_idx = top_of(lp)
+    for r in [x for x in walk_no_nested(fn) if isinstance(x, ast.Return)]:
+        if _inside(r, lp):
+            continue            # seen by the decision table as a loop exit
         val = unparse(r.value) if r.value is not None else "None"
-        after_loop = r.lineno > lp.end_lineno
-        ok_r = (val == "meta_df" and guards == ["meta_df.height == 0"]) or (after_loop and not guards and val == "pl.DataFrame(rows)")
-        ctx.instance("R04.1", fi.where(r), f"_assign_pages return `{val}` under {guards or 'no guard'} ({'after' if after_loop else 'before'} the greedy loop)")
-        if not ok_r:
-            ctx.violation("R04.1", fi.short, f"shortcut return {val} if {guards}", fi.where(r),
-                          f"_assign_pages returns `{val}` under {guards} without running the greedy pass: page numbers assigned by a shortcut need not respect the row budget "
+        ga = guard_atoms(guards(r, fn), fn)
+        after_loop = top_of(r) > lp_idx
+        ctx.instance("R04.1", fi.where(r), f"_assign_pages return `{val}` under {sorted(ga) or 'no guard'} ({'after' if after_loop else 'before'} the greedy loop)")
+        if after_loop:
+            used = {n.id for x in (r.value, resolve(r.value, fn)) for n in ast.walk(x) if isinstance(n, ast.Name)} if r.value is not None else set()
+            src_names = {n.id for n in ast.walk(L.src) if isinstance(n, ast.Name)}
+            if not (used & src_names):
+                ctx.gap("R04.1", f"the result `{val}` of _assign_pages could not be related to the rows the loop assigned pages to")
+            continue
+        if L.frame and ga & _empty_tests(L.frame):
+            continue            # nothing to paginate
+        rv_ = resolve(r.value, fn) if r.value is not None else None
+        if isinstance(rv_, ast.Name) and rv_.id == L.frame:
+            ctx.gap("R04.1", f"_assign_pages returns its input unchanged under {sorted(ga)}, which could not be recognised as 'the frame is empty'")
+        else:
+            ctx.violation("R04.1", fi.short, f"shortcut return {val} if {sorted(ga)}", fi.where(r),
+                          f"_assign_pages returns `{val}` under {sorted(ga)} without running the greedy pass: page numbers assigned by a shortcut need not respect the row budget "
                           "or prefix stability")
-    inits = {unparse(a.targets[0]): unparse(a.value) for a in fi.node.body if isinstance(a, ast.Assign)}
-    if inits.get("current_page") != "1" or inits.get("current_rows") != "0":
-        ctx.violation("R04.1", fi.short, f"initial state {inits.get('current_page')},{inits.get('current_rows')}", fi.where(), "page numbering must start at page 1 with 0 rows")
-    src_rows = inits.get("rows")
-    if src_rows != "meta_df.to_dicts()" or unparse(lp.iter) != "enumerate(rows)":
-        ctx.violation("R04.1", fi.short, "row source " + str(src_rows), fi.where(lp), "rows are not visited in metadata order")
+    # initial state
+    inner_ids = {id(n) for n in ast.walk(lp)}
+    init = {}
+    for a in walk_no_nested(fn):
+        if isinstance(a, ast.Assign) and id(a) not in inner_ids:
+            for t in a.targets:
+                if isinstance(t, ast.Name) and t.id in (P, R):
+                    init.setdefault(t.id, []).append(a.value)
+    ip, ir = init.get(P, []), init.get(R, [])
+    if len(ip) == 1 and len(ir) == 1 and isinstance(ip[0], ast.Constant) and isinstance(ir[0], ast.Constant):
+        if not (_const(ip[0], 1) and _const(ir[0], 0)):
+            ctx.violation("R04.1", fi.short, f"initial state {unparse(ip[0])},{unparse(ir[0])}", fi.where(), "page numbering must start at page 1 with 0 rows")
+    else:
+        ctx.gap("R04.1", f"the initial values of `{P}` / `{R}` could not be re-identified")
+    # rows visited in metadata order
+    src = resolve(L.src, fn)
+    order_ops = [c for c in ast.walk(src) if isinstance(c, ast.Call) and
+                 ((isinstance(c.func, ast.Name) and c.func.id in ("sorted", "reversed")) or
+                  (isinstance(c.func, ast.Attribute) and c.func.attr in ("sort", "reverse", "sample", "shuffle", "filter", "unique", "head", "tail")))]
+    order_ops += [s for s in ast.walk(src) if isinstance(s, ast.Slice)]
+    plain = isinstance(src, ast.Call) and isinstance(src.func, ast.Attribute) and src.func.attr in ("to_dicts", "iter_rows", "rows") \
+        and isinstance(src.func.value, ast.Name) and src.func.value.id == L.frame
+    if order_ops:
+        ctx.violation("R04.1", fi.short, "row source " + unparse(src), fi.where(lp), "rows are not visited in metadata order")
+    elif not plain:
+        ctx.gap("R04.1", f"the rows iterated by the page-assignment loop (`{unparse(src)}`) could not be related to the metadata frame")
+
+
+# ------------------------------------------------------------------------------------------------ R04.2
+
+def meta_fields(c) -> tuple[ast.AST, dict]:
+    """the per-row metadata record built by calculate_row_metadata (dict literal or keyword call): field -> value"""
+    cands = []
+    for n in walk_no_nested(c.node):
+        if isinstance(n, ast.Dict) and n.keys and all(isinstance(k, ast.Constant) for k in n.keys):
+            d = {k.value: v for k, v in zip(n.keys, n.values)}
+        elif isinstance(n, ast.Call) and n.keywords and not n.args:
+            d = {k.arg: k.value for k in n.keywords if k.arg}
+        else:
+            continue
+        if {"total_rows", "is_group_start", "is_subline_start"} <= set(d) and not all(isinstance(v, ast.Attribute) for v in d.values()):
+            cands.append((n, d))        # (a dict whose values are all dtypes is the frame's schema, not a record)
+    if len(cands) != 1:
+        raise Unrecognised(f"the per-row metadata record of calculate_row_metadata could not be re-identified ({len(cands)} candidates)")
+    return cands[0]
+
+
+def flag_list(md: dict, key: str):
+    """`flags[idx] if grp else False` (or `grp and flags[idx]`): -> (test expr, flags name, idx expr)"""
+    v = md[key]
+    if isinstance(v, ast.IfExp) and _const(v.orelse, False):
+        test, body = v.test, v.body
+    elif isinstance(v, ast.BoolOp) and isinstance(v.op, ast.And) and len(v.values) == 2:
+        test, body = v.values
+    else:
+        raise Unrecognised(f"row flag {key} = `{unparse(v)}`")
+    test, body = _peel(test), _peel(body)
+    if not (isinstance(body, ast.Subscript) and isinstance(body.value, ast.Name)):
+        raise Unrecognised(f"row flag {key} = `{unparse(v)}`")
+    return test, body.value.id, body.slice
 
 
 def r04_2(ctx: Ctx, only: set | None = None) -> None:
@@ -173,38 +505,239 @@ def r04_2(ctx: Ctx, only: set | None = None) -> None:
     }
     common = {"df": "context.df", "col_widths": "context.col_widths", "table_attrs": "context.table_attrs",
               "removed_column_indices": "context.removed_column_indices", "additional_rows_per_page": "context.additional_rows_per_page"}
+    c = pm.func("PageBreakCalculator.calculate_row_metadata")
+    cparams = [p for p in _params(c.node) if p != "self"]
     for short, w in want.items():
         fi = pm.func(short)
-        env = single_assign_env(fi.node)
-        calls = [c for c in walk_no_nested(fi.node) if isinstance(c, ast.Call) and dotted(c.func).endswith("calculate_row_metadata")]
+        calls = [x for x in walk_no_nested(fi.node) if isinstance(x, ast.Call) and dotted(x.func).endswith("calculate_row_metadata")]
         if len(calls) != 1:
-            ctx.violation("R04.2", short, f"calculate_row_metadata x{len(calls)}", fi.where(), f"{short} does not compute the row metadata exactly once")
+            ctx.gap("R04.2", f"the call of calculate_row_metadata could not be re-identified in {short} ({len(calls)} calls)")
             continue
         kw = {}
+        for pname, a in zip(cparams, calls[0].args):
+            kw[pname] = unparse(resolve(a, fi.node))
         for k in calls[0].keywords:
-            v = k.value
-            while isinstance(v, ast.Name) and v.id in env:
-                v = env[v.id]
-            kw[k.arg] = unparse(v)
+            if k.arg is None:
+                ctx.gap("R04.2", f"{short} passes **{unparse(k.value)} to calculate_row_metadata")
+                kw = None
+                break
+            kw[k.arg] = unparse(resolve(k.value, fi.node))
+        if kw is None:
+            continue
         ctx.instance("R04.2", fi.where(calls[0]), f"{short}: calculate_row_metadata({', '.join(f'{k}={v}' for k, v in sorted(kw.items()))})")
         for k, v in {**w, **common}.items():
             if only is not None and k not in only:
                 continue
-            if kw.get(k) != v:
+            got = kw.get(k)
+            if got == "None" and v is None:
+                got = None
+            if got != v:
                 ctx.violation("R04.2", short, f"{k}={kw.get(k)}", fi.where(calls[0]), f"{short}: calculate_row_metadata is called with {k}={kw.get(k)}, expected {v}")
-    c = pm.func("PageBreakCalculator.calculate_row_metadata")
+    a = pm.func("PageBreakCalculator._assign_pages")
+    aparams = [p for p in _params(a.node) if p != "self"]
     calls = [x for x in walk_no_nested(c.node) if isinstance(x, ast.Call) and dotted(x.func).endswith("_assign_pages")]
-    args = [unparse(a) for a in calls[0].args] if calls else []
-    ctx.instance("R04.2", c.where(calls[0]) if calls else c.where(), f"_assign_pages({', '.join(args)})")
-    if args != ["meta_df", "additional_rows_per_page", "new_page"]:
-        ctx.violation("R04.2", c.short, "_assign_pages args " + str(args), c.where(), "the forced-break flag and the reservation do not reach _assign_pages")
-    t = unparse(c.node)
-    for flag, src in (("is_group_start", "page_by_changes[row_idx] if page_by else False"), ("is_subline_start", "subline_by_changes[row_idx] if subline_by else False")):
-        ok = f"'{flag}': {src}" in t
-        ctx.instance("R04.2", c.where(), f"row flag {flag} <- {src}: {ok}")
-        if not ok:
-            ctx.violation("R04.2", c.short, f"{flag} source", c.where(), f"row flag {flag} is not `{src}`")
+    if len(calls) != 1:
+        ctx.gap("R04.2", f"the call of _assign_pages could not be re-identified in calculate_row_metadata ({len(calls)} calls)")
+    else:
+        got = {p: unparse(x) for p, x in zip(aparams, calls[0].args)}
+        got.update({k.arg: unparse(k.value) for k in calls[0].keywords if k.arg})
+        ctx.instance("R04.2", c.where(calls[0]), f"_assign_pages({', '.join(f'{k}={v}' for k, v in got.items())})")
+        for p in ("additional_rows_per_page", "new_page"):
+            if got.get(p) != p:
+                ctx.violation("R04.2", c.short, f"_assign_pages {p}={got.get(p)}", c.where(calls[0]), "the forced-break flag and the reservation do not reach _assign_pages")
+    try:
+        _node, md = meta_fields(c)
+    except Unrecognised as e:
+        ctx.gap("R04.2", str(e))
+        md = None
+    for flag, grp, other in (("is_group_start", "page_by", "subline_by"), ("is_subline_start", "subline_by", "page_by")):
+        if md is None:
+            break
+        try:
+            test, flags, idx = flag_list(md, flag)
+        except Unrecognised as e:
+            ctx.gap("R04.2", str(e))
+            continue
+        ctx.instance("R04.2", c.where(), f"row flag {flag} <- {flags}[{unparse(idx)}] when {unparse(test)}")
+        if not (isinstance(test, ast.Name) and test.id == grp):
+            if isinstance(test, ast.Name) and test.id == other:
+                ctx.violation("R04.2", c.short, f"{flag} source", c.where(), f"row flag {flag} is conditioned on {other} instead of {grp}")
+            else:
+                ctx.gap("R04.2", f"row flag {flag} is conditioned on `{unparse(test)}`")
+        if "row_index" in md and unparse(idx) != unparse(md["row_index"]):
+            ctx.violation("R04.2", c.short, f"{flag} source", c.where(), f"row flag {flag} is read at index `{unparse(idx)}`, not at the row's own index `{unparse(md['row_index'])}`")
     ctx.floor("R04.2", 6)
+
+
+# ------------------------------------------------------------------------------------------------ R04.3 / R04.4
+
+_HEIGHTS = ("df.height", "len(df)", "df.shape[0]")
+
+
+def _row_offset(e: ast.AST, col: str, i: str, lp: ast.For, fn: ast.AST):
+    """`e` reads column `col` of some row: -> linear form of the row index in terms of the loop variable i,
+    'carried' for the previous-row idiom (prev = row(lo-1) before the loop, prev = current at the end of the
+    body), or None"""
+    if not isinstance(e, ast.Subscript):
+        return None
+    # df[col][idx]
+    if isinstance(e.value, ast.Subscript) and isinstance(e.value.slice, ast.Name) and e.value.slice.id == col:
+        return linform(e.slice)
+    if not (isinstance(e.slice, ast.Name) and e.slice.id == col):
+        return None
+    row = e.value
+
+    def of_row_call(x):
+        if isinstance(x, ast.Call) and isinstance(x.func, ast.Attribute) and x.func.attr == "row" and x.args:
+            return linform(x.args[0])
+        return None
+    if isinstance(row, ast.Name):
+        ins = [a for a in ast.walk(lp) if isinstance(a, ast.Assign) and len(a.targets) == 1 and isinstance(a.targets[0], ast.Name) and a.targets[0].id == row.id]
+        outs = [v for v in assignments(fn).get(row.id, []) if not any(v is a.value for a in ins)]
+        if len(ins) == 1 and not isinstance(ins[0].value, ast.Name):
+            return of_row_call(ins[0].value)
+        if len(ins) == 1 and isinstance(ins[0].value, ast.Name) and ins[0] is lp.body[-1]:
+            # carried previous row: updated from the current row as the last statement of every iteration
+            cur = _local_value(ins[0].value.id, lp, fn)
+            cur_lf = of_row_call(cur) if cur is not None else None
+            lo = linform(lp.iter.args[0]) if isinstance(lp.iter, ast.Call) and len(lp.iter.args) >= 2 else None
+            if cur_lf == {i: 1} and lo is not None and set(lo) <= {""} and not any(isinstance(x, ast.Continue) for x in ast.walk(lp)):
+                first = [of_row_call(v) for v in outs]
+                want_first = {"": lo.get("", 0) - 1} if lo.get("", 0) - 1 else {}
+                if len(first) == 1 and first[0] == want_first:
+                    return {i: 1, "": -1}
+            return None
+        return None
+    return of_row_call(row)
+
+
+def _change_flags(ctx: Ctx, c, grp: str, other: str, X: str, scope_fns: list) -> None:
+    """R04.4 for one grouping: X[i] (i >= 1) must be `any column of grp differs between row i-1 and row i` and X[0] True"""
+    fn = c.node
+    key = f"{grp} change detection"
+    whole = assignments(fn).get(X, [])
+    item_stores = [s for s in walk_no_nested(fn) if isinstance(s, ast.Assign) and len(s.targets) == 1 and isinstance(s.targets[0], ast.Subscript)
+                   and isinstance(s.targets[0].value, ast.Name) and s.targets[0].value.id == X]
+    loop_stores = []
+    for s in item_stores:
+        lp = _enclosing_for(s, fn)
+        while lp is not None and not (isinstance(s.targets[0].slice, ast.Name) and s.targets[0].slice.id in _target_names(lp.target)):
+            lp = _enclosing_for(lp, fn)
+        if lp is not None:
+            loop_stores.append((s, lp))
+    if not loop_stores:
+        # not the row-by-row form: is it one of the derivations known to be wrong?
+        hint = ""
+        for x in (z for sc in scope_fns for z in ast.walk(sc)):
+            is_join = isinstance(x, ast.Call) and isinstance(x.func, ast.Attribute) and x.func.attr == "join" and _const(x.func.value, "")
+            is_concat = isinstance(x, ast.Call) and dotted(x.func).endswith("concat_str") and \
+                not any(k.arg == "separator" and not _const(k.value, "") for k in x.keywords)
+            if is_join or is_concat:
+                hint = f"found `{unparse(x)[:60]}`: keys concatenated without a separator make ('1','12') and ('11','2') equal"
+            shifted = isinstance(x, ast.Compare) and any(isinstance(o, (ast.NotEq, ast.Eq)) for o in x.ops) and \
+                any(isinstance(y, ast.Call) and isinstance(y.func, ast.Attribute) and y.func.attr == "shift" for y in ast.walk(x))
+            shifted = shifted or (isinstance(x, ast.Call) and isinstance(x.func, ast.Attribute) and x.func.attr in ("ne", "eq") and
+                                  any(isinstance(y, ast.Call) and isinstance(y.func, ast.Attribute) and y.func.attr == "shift" for y in ast.walk(x)))
+            if shifted:
+                hint = hint or f"found `{unparse(x)[:60]}`: a polars comparison with a shifted column is null next to a null, so such transitions are dropped"
+        if hint:
+            ctx.violation("R04.4", c.short, key, c.where(), f"{grp} group starts are no longer detected by comparing consecutive rows column by column ({hint})")
+        else:
+            ctx.gap("R04.4", f"the derivation of the {grp} group-start flags `{X}` could not be re-identified")
+        return
+    for v in whole:
+        m = match("[True] * _H", v) or match("_H * [True]", v)
+        if m is not None and unparse(m["_H"]) in _HEIGHTS:
+            continue
+        m = match("[False] * _H", v) or match("_H * [False]", v)
+        if m is not None:
+            ctx.violation("R04.4", c.short, f"{X} init", c.where(), f"{X} is not initialised to all-True (the first row starts a group)")
+        else:
+            ctx.gap("R04.4", f"the initial value `{unparse(v)[:60]}` of `{X}` could not be recognised as all-True")
+    if not whole:
+        ctx.gap("R04.4", f"the initial value of `{X}` could not be re-identified")
+    for s in item_stores:
+        if not any(s is t for t, _ in loop_stores) and not (_const(s.targets[0].slice, 0) and _const(s.value, True)):
+            ctx.gap("R04.4", f"`{unparse(s)}` writes a {grp} group-start flag in an unrecognised way")
+    for s, lp in loop_stores:
+        i = s.targets[0].slice.id
+        m = match("range(1, _H)", lp.iter)
+        if not (isinstance(lp.target, ast.Name) and m is not None and unparse(m["_H"]) in _HEIGHTS):
+            ctx.gap("R04.4", f"the {grp} flags are written in `for {unparse(lp.target)} in {unparse(lp.iter)}`, not a pass over rows 1..height-1")
+            continue
+        allowed = {grp, other, "df.height", "df", "len", "0", "1"}
+        gl = {x for t, _pol in guards(s, fn) for x in leaves(t)}
+        if not gl <= allowed:
+            ctx.gap("R04.4", f"the {grp} flag store is conditioned on {sorted(gl - allowed)}")
+            continue
+        # value: any(CMP for col in GRP)  |  flag variable set in `for col in GRP: if CMP: flag = True`
+        val = s.value
+        cmp_, col, cols = None, None, None
+        if isinstance(val, ast.Name):
+            sets = [a for a in ast.walk(lp) if isinstance(a, ast.Assign) and len(a.targets) == 1 and isinstance(a.targets[0], ast.Name) and a.targets[0].id == val.id]
+            resets = [a for a in sets if _const(a.value, False)]
+            trues = [a for a in sets if _const(a.value, True)]
+            if len(trues) == 1 and len(sets) == len(resets) + 1:
+                if not any(a in lp.body for a in resets):
+                    where_reset = assignments(fn).get(val.id, [])
+                    if any(_const(v, False) for v in where_reset) and not resets:
+                        ctx.violation("R04.4", c.short, f"{grp} flag not reset", c.where(s), f"`{val.id}` is not reset for every row: once a change was seen every later row is flagged")
+                    else:
+                        ctx.gap("R04.4", f"the reset of `{val.id}` could not be re-identified")
+                    continue
+                t = trues[0]
+                inner = _enclosing_for(t, lp)
+                tests = guards(t, inner if inner is not None else lp)
+                if len(tests) == 1 and tests[0][1] and isinstance(tests[0][0], ast.Compare):
+                    cmp_ = tests[0][0]
+                    if inner is not None and isinstance(inner.target, ast.Name):
+                        col, cols = inner.target.id, inner.iter
+        else:
+            neg = False
+            call = val
+            if isinstance(call, ast.Call) and dotted(call.func) == "any" and len(call.args) == 1 and isinstance(call.args[0], (ast.GeneratorExp, ast.ListComp)):
+                g = call.args[0]
+                if len(g.generators) == 1 and not g.generators[0].ifs and isinstance(g.generators[0].target, ast.Name) and isinstance(g.elt, ast.Compare) and not neg:
+                    cmp_, col, cols = g.elt, g.generators[0].target.id, g.generators[0].iter
+        if cmp_ is None or len(cmp_.ops) != 1 or not isinstance(cmp_.ops[0], (ast.NotEq, ast.Eq)):
+            ctx.gap("R04.4", f"the value `{unparse(val)[:70]}` stored as {grp} group-start flag could not be interpreted")
+            continue
+        l, r = cmp_.left, cmp_.comparators[0]
+        wrapped = [isinstance(x, ast.Call) and dotted(x.func) == "str" and len(x.args) == 1 for x in (l, r)]
+        if wrapped[0] != wrapped[1]:
+            ctx.violation("R04.4", c.short, f"{grp} comparison {unparse(cmp_)}", c.where(cmp_), f"`{unparse(cmp_)}` compares a str() with a raw value")
+            continue
+        if all(wrapped):
+            l, r = l.args[0], r.args[0]
+        # which column does the comparison read?
+        colname = None
+        for x in (l, r):
+            if isinstance(x, ast.Subscript):
+                k = x.value.slice if isinstance(x.value, ast.Subscript) else x.slice
+                if isinstance(k, ast.Name):
+                    colname = colname or k.id
+        if colname is None:
+            ctx.gap("R04.4", f"the column compared by `{unparse(cmp_)}` could not be re-identified")
+            continue
+        if col is None or colname != col:
+            cv = _local_value(colname, lp, fn)
+            ctx.violation("R04.4", c.short, key, c.where(cmp_),
+                          f"{grp} change detection compares only `{unparse(cv) if cv is not None else colname}`, not every column of {grp}")
+            continue
+        cols_r = strip_wrappers(resolve(cols, fn))
+        if not (isinstance(cols_r, ast.Name) and cols_r.id == grp):
+            ctx.violation("R04.4", c.short, key, c.where(cmp_), f"{grp} change detection iterates over `{unparse(cols)}`, not over every column of {grp}")
+            continue
+        lo, ro = _row_offset(l, col, i, lp, fn), _row_offset(r, col, i, lp, fn)
+        if lo is None or ro is None:
+            ctx.gap("R04.4", f"the rows compared by `{unparse(cmp_)}` could not be re-identified")
+            continue
+        ctx.instance("R04.4", c.where(cmp_), f"{grp} change flag: `{unparse(cmp_)}` per column over `{grp}`, rows {lo} vs {ro}, stored to {X}[{i}]")
+        pair = sorted([sorted(lo.items(), key=str), sorted(ro.items(), key=str)])
+        if pair != sorted([sorted({i: 1}.items(), key=str), sorted({i: 1, "": -1}.items(), key=str)]):
+            ctx.violation("R04.4", c.short, key, c.where(cmp_), f"{grp} change detection compares rows {lo} and {ro} instead of each row with its predecessor")
+        elif isinstance(cmp_.ops[0], ast.Eq):
+            ctx.violation("R04.4", c.short, key, c.where(cmp_), f"{grp} change detection flags rows that are EQUAL to their predecessor (`{unparse(cmp_)}`)")
 
 
 def r04_3_4(ctx: Ctx, lookahead: bool = True, flags: bool = True) -> None:
@@ -222,11 +755,7 @@ def r04_3_4(ctx: Ctx, lookahead: bool = True, flags: bool = True) -> None:
                     if not used:
                         continue
                     n += 1
-                    v0 = used[0]
-                    ok = lf in ({v0: 1}, {v0: 1, "": -1})
-                    if fi is c and v0 == "width_idx":
-                        ok = True
-                    if not ok and lf.get("", 0) > 0:
+                    if lf.get("", 0) > 0 and all(co > 0 for k, co in lf.items() if k in ivs):
                         ctx.violation("R04.3", fi.short, "look-ahead " + unparse(sub), fi.where(sub),
                                       f"{fi.short}: `{unparse(sub)}` reads a later row while deciding the current one; appending rows would change earlier pages")
             for call in ast.walk(lp):
@@ -244,114 +773,235 @@ def r04_3_4(ctx: Ctx, lookahead: bool = True, flags: bool = True) -> None:
     # R04.4: change flags compare consecutive rows column by column
     if not flags:
         return
-    for grp in ("page_by", "subline_by"):
-        found = False
-        for blk in [x for x in walk_no_nested(c.node) if isinstance(x, ast.If) and unparse(x.test) == grp]:
-            for lp in [x for x in ast.walk(blk) if isinstance(x, ast.For) and unparse(x.iter).replace(" ", "") == "range(1,df.height)"]:
-                inner = [x for x in ast.walk(lp) if isinstance(x, ast.For) and unparse(x.iter) == grp]
-                cmps = [x for y in inner for x in ast.walk(y) if isinstance(x, ast.Compare) and len(x.ops) == 1 and isinstance(x.ops[0], ast.NotEq)]
-                store = [x for x in ast.walk(lp) if isinstance(x, ast.Assign) and unparse(x.targets[0]) == f"{grp}_changes[i]"]
-                rows_ok = "df.row(i - 1, named=True)" in unparse(lp) and "df.row(i, named=True)" in unparse(lp)
-                if inner and cmps and store and rows_ok:
-                    col = inner[0].target.id
-                    l, r = unparse(cmps[0].left), unparse(cmps[0].comparators[0])
-                    per_col = f"[{col}]" in l and f"[{col}]" in r and ("prev_row" in l + r) and ("curr_row" in l + r)
-                    found = per_col
-                    ctx.instance("R04.4", c.where(cmps[0]), f"{grp} change flag: `{unparse(cmps[0])}` per column over `{grp}`, stored to {grp}_changes[i]")
-        if not found:
-            # look for a substitute and say what is wrong with it
-            hint = ""
-            scope = [c.node] + [pm.funcs[k].node for k in pm.funcs if pm.funcs[k].cls == c.cls and k != c.short
-                                and any(isinstance(y, ast.Call) and dotted(y.func).endswith(pm.funcs[k].name) for y in ast.walk(c.node))]
-            for x in (z for sc in scope for z in ast.walk(sc)):
-                is_join = isinstance(x, ast.Call) and isinstance(x.func, ast.Attribute) and x.func.attr == "join" and \
-                    isinstance(x.func.value, ast.Constant) and x.func.value.value == ""
-                is_concat = isinstance(x, ast.Call) and dotted(x.func).endswith("concat_str") and not any(k.arg == "separator" for k in x.keywords)
-                if is_join or is_concat:
-                    hint = f" (found `{unparse(x)[:60]}`: concatenated keys make ('1','12') and ('11','2') equal)"
-                if isinstance(x, ast.Call) and isinstance(x.func, ast.Attribute) and x.func.attr == "shift":
-                    hint = hint or f" (found `{unparse(x)[:60]}`: polars != with a shifted column is null next to a null)"
-            ctx.violation("R04.4", c.short, f"{grp} change detection", c.where(),
-                          f"{grp} group starts are no longer detected by comparing consecutive rows column by column{hint}")
-    init = {unparse(x.targets[0]): unparse(x.value) for x in walk_no_nested(c.node) if isinstance(x, ast.Assign) and len(x.targets) == 1}
-    for grp in ("page_by", "subline_by"):
-        if init.get(f"{grp}_changes") != "[True] * df.height":
-            ctx.violation("R04.4", c.short, f"{grp}_changes init", c.where(), f"{grp}_changes is not initialised to all-True (first row starts a group)")
+    try:
+        _node, md = meta_fields(c)
+    except Unrecognised as e:
+        ctx.gap("R04.4", str(e))
+        return
+    scope = [c.node] + [pm.funcs[k].node for k in pm.funcs if pm.funcs[k].cls == c.cls and k != c.short
+                        and any(isinstance(y, ast.Call) and dotted(y.func).endswith("." + pm.funcs[k].name) for y in ast.walk(c.node))]
+    for flag, grp, other in (("is_group_start", "page_by", "subline_by"), ("is_subline_start", "subline_by", "page_by")):
+        try:
+            _test, X, _idx = flag_list(md, flag)
+        except Unrecognised as e:
+            ctx.gap("R04.4", str(e))
+            continue
+        _change_flags(ctx, c, grp, other, X, scope)
     ctx.floor("R04.4", 2)
+
+
+# ------------------------------------------------------------------------------------------------ R04.5
+
+def _page_bound(e: ast.AST, fn: ast.AST, lp: ast.For):
+    """provenance of a slice bound: -> ('min'|'max', order) where order is 'asc' / 'unordered' / 'desc' / '?', or None.
+    Two recognised derivations of 'the smallest / largest row_index of the rows assigned to this page':
+      (1) F['row_index'].min()  with F = M.filter(pl.col('page') == p), p the variable of the page loop over M['page'].unique().sort()
+      (2) the k-th element of the loop tuple over M.group_by('page').agg(pl.col('row_index').min(), ...).sort('page').iter_rows()"""
+    e = _peel(e)
+    tnames = _target_names(lp.target)
+    if isinstance(e, ast.Name) and e.id in tnames and isinstance(lp.target, ast.Tuple):
+        flat = [x.id if isinstance(x, ast.Name) else None for x in lp.target.elts]
+        if e.id not in flat:
+            return None
+        k = flat.index(e.id)
+        it = resolve(lp.iter, fn)
+        m = match("_Q.iter_rows()", it) or match("_Q.rows()", it)
+        if m is None or k == 0:
+            return None
+        q = m["_Q"]
+        order = "unordered"
+        if isinstance(q, ast.Call) and isinstance(q.func, ast.Attribute) and q.func.attr == "sort":
+            desc = any(k2.arg in ("descending", "reverse") and not _const(k2.value, False) for k2 in q.keywords)
+            by = [unparse(x) for x in q.args] + [unparse(k2.value) for k2 in q.keywords if k2.arg == "by"]
+            order = "desc" if desc else ("asc" if by in (["'page'"], ["['page']"], ["pl.col('page')"]) else "?")
+            q = q.func.value
+        if not (isinstance(q, ast.Call) and isinstance(q.func, ast.Attribute) and q.func.attr == "agg"):
+            return None
+        gb = q.func.value
+        if not (isinstance(gb, ast.Call) and isinstance(gb.func, ast.Attribute) and gb.func.attr == "group_by"
+                and [unparse(x) for x in gb.args] in (["'page'"], ["['page']"], ["pl.col('page')"])):
+            return None
+        if any(k2.arg == "maintain_order" and _const(k2.value, True) for k2 in gb.keywords) and order == "unordered":
+            order = "?"
+        aggs = list(q.args[0].elts) if len(q.args) == 1 and isinstance(q.args[0], (ast.List, ast.Tuple)) else list(q.args)
+        if q.keywords or k - 1 >= len(aggs):
+            return None
+        ag = aggs[k - 1]
+        while isinstance(ag, ast.Call) and isinstance(ag.func, ast.Attribute) and ag.func.attr in ("alias", "cast"):
+            ag = ag.func.value
+        for kind in ("min", "max"):
+            if match(f"pl.col('row_index').{kind}()", ag) is not None:
+                return kind, order
+        return None
+    if isinstance(e, ast.Name):
+        v = _local_value(e.id, lp, fn)
+        return _page_bound(v, fn, lp) if v is not None else None
+    for kind in ("min", "max"):
+        m = match(f"_F['row_index'].{kind}()", e)
+        if m is None:
+            continue
+        f = m["_F"]
+        if isinstance(f, ast.Name):
+            f = _local_value(f.id, lp, fn)
+            if f is None:
+                return None
+        m2 = match("_M.filter(pl.col('page') == _P)", f) or match("_M.filter(_P == pl.col('page'))", f)
+        if m2 is None or not (isinstance(m2["_P"], ast.Name) and m2["_P"].id in tnames):
+            return None
+        it = resolve(lp.iter, fn)
+        mm = unparse(m2["_M"])
+        if match("_M['page'].unique().sort()", it) is not None or match("sorted(_M['page'].unique())", it) is not None \
+                or match("sorted(set(_M['page']))", it) is not None:
+            order = "asc"
+        elif match("_M['page'].unique()", it) is not None:
+            order = "unordered"
+        elif isinstance(it, ast.Call) and isinstance(it.func, ast.Attribute) and it.func.attr == "sort" and \
+                any(k2.arg in ("descending", "reverse") and not _const(k2.value, False) for k2 in it.keywords):
+            order = "desc"
+        else:
+            order = "?"
+        if mm not in unparse(it):
+            order = "?"
+        return kind, order
+    return None
 
 
 def r04_5(ctx: Ctx) -> None:
     pm = ctx.pm
     for short in STRATS:
         fi = pm.func(short)
-        env = single_assign_env(fi.node)
-        t = unparse(fi.node)
-        up = unparse(env.get("unique_pages")) if "unique_pages" in env else "?"
-        loop = [n for n in walk_no_nested(fi.node) if isinstance(n, ast.For) and unparse(n.iter) == "unique_pages"]
-        ok_order = up == "metadata['page'].unique().sort()" and len(loop) == 1
-        filt = "page_rows = metadata.filter(pl.col('page') == page_num)" in t
-        guard = "if page_rows.height == 0:\n                continue" in t or "if page_rows.height == 0:" in t
-        sr, er = unparse(env.get("start_row")) if "start_row" in env else "?", unparse(env.get("end_row")) if "end_row" in env else "?"
-        ok_range = "page_rows['row_index'].min()" in sr and "page_rows['row_index'].max()" in er
-        sl = [c for c in ast.walk(fi.node) if isinstance(c, ast.Call) and isinstance(c.func, ast.Attribute) and c.func.attr == "slice" and unparse(c.func.value) == "context.df"]
-        ok_slice = len(sl) == 1 and len(sl[0].args) == 2 and linform(sl[0].args[0]) == {"start_row": 1} and linform(sl[0].args[1]) == {"end_row": 1, "start_row": -1, "": 1}
-        app = [c for c in ast.walk(fi.node) if isinstance(c, ast.Call) and isinstance(c.func, ast.Attribute) and c.func.attr == "append" and unparse(c.func.value) == "pages"]
-        ok_app = len(app) == 1 and loop and any(x is app[0] for x in ast.walk(loop[0])) and not any(isinstance(a, ast.If) for a in _anc(app[0], loop[0]))
-        ctx.instance("R04.5", fi.where(), f"{short}: ascending unique pages {ok_order}; filter by page {filt}; empty guard {guard}; range [min,max] {ok_range}; "
-                     f"slice(start, end-start+1) {ok_slice}; one append per page {bool(ok_app)}")
-        if not ok_order:
-            ctx.violation("R04.5", short, "page order " + up, fi.where(), f"{short}: pages are not materialised in ascending page number (unique().sort())")
-        if not (filt and ok_range and ok_slice):
-            ctx.violation("R04.5", short, "page slice", fi.where(), f"{short}: a page is not the contiguous slice [min row_index, max row_index] of the rows assigned to it (length max-min+1)")
-        if not ok_app:
-            ctx.violation("R04.5", short, "page append", fi.where(), f"{short}: not exactly one PageContext is appended per page number")
-        if "return pages" not in t:
-            ctx.violation("R04.5", short, "return", fi.where(), f"{short} does not return the page list")
+        fn = fi.node
+        sl = [c for c in walk_no_nested(fn) if isinstance(c, ast.Call) and isinstance(c.func, ast.Attribute) and c.func.attr == "slice"
+              and unparse(c.func.value) == "context.df"]
+        if len(sl) != 1:
+            ctx.gap("R04.5", f"{short}: the slice of the original frame that becomes a page could not be re-identified ({len(sl)} candidates)")
+            continue
+        lp = _enclosing_for(sl[0], fn)
+        args = {"offset": sl[0].args[0] if sl[0].args else None, "length": sl[0].args[1] if len(sl[0].args) > 1 else None}
+        for k in sl[0].keywords:
+            if k.arg in args:
+                args[k.arg] = k.value
+        if lp is None or args["offset"] is None or args["length"] is None:
+            ctx.gap("R04.5", f"{short}: `{unparse(sl[0])}` is not a per-page slice(offset, length) inside a loop over the pages")
+            continue
+
+        lo, ln = lin_local(args["offset"], lp, fn), lin_local(args["length"], lp, fn)
+        starts = [k for k in lo if k != ""]
+        ok_slice = len(starts) == 1 and lo == {starts[0]: 1}
+        ends = [k for k in ln if k not in ("", starts[0])] if ok_slice else []
+        ok_slice = ok_slice and len(ends) == 1 and ln == {ends[0]: 1, starts[0]: -1, "": 1}
+        ctx.instance("R04.5", fi.where(sl[0]), f"{short}: page = context.df.slice({unparse(args['offset'])}, {unparse(args['length'])}); offset {lo}, length {ln}")
+        if not ok_slice:
+            ctx.violation("R04.5", short, "page slice", fi.where(sl[0]),
+                          f"{short}: a page is not the contiguous slice [min row_index, max row_index] of the rows assigned to it (offset {lo}, length {ln}; required start, end-start+1)")
+            continue
+        try:
+            bs = _page_bound(ast.parse(starts[0], mode="eval").body, fn, lp)
+            be = _page_bound(ast.parse(ends[0], mode="eval").body, fn, lp)
+        except SyntaxError:
+            bs = be = None
+        if bs is None or be is None:
+            ctx.gap("R04.5", f"{short}: the origin of the page bounds `{starts[0]}` / `{ends[0]}` could not be re-identified")
+            continue
+        if (bs[0], be[0]) != ("min", "max"):
+            ctx.violation("R04.5", short, "page slice", fi.where(sl[0]), f"{short}: the page starts at the {bs[0]} and ends at the {be[0]} row index of its rows (required: min .. max)")
+        order = bs[1]
+        if order in ("unordered", "desc"):
+            ctx.violation("R04.5", short, "page order " + unparse(lp.iter), fi.where(lp), f"{short}: pages are not materialised in ascending page number ({order})")
+        elif order != "asc":
+            ctx.gap("R04.5", f"{short}: the order of the page loop `{unparse(resolve(lp.iter, fn))[:80]}` could not be established")
+        # one page object per page number, appended to the returned list
+        rets = [r for r in walk_no_nested(fn) if isinstance(r, ast.Return) and r.value is not None]
+        lists = {r.value.id for r in rets if isinstance(r.value, ast.Name)}
+        app = [c for c in ast.walk(lp) if isinstance(c, ast.Call) and isinstance(c.func, ast.Attribute) and c.func.attr == "append"
+               and isinstance(c.func.value, ast.Name) and c.func.value.id in lists]
+        if len(lists) != 1 or len(rets) != 1 or len(app) != 1:
+            ctx.gap("R04.5", f"{short}: the list of pages returned and the append that fills it could not be re-identified")
+            continue
+        ga = guard_atoms(guards(app[0], lp), fn)
+        frames = {n.id for n in ast.walk(lp) if isinstance(n, ast.Name)}
+        allowed = set().union(*[_nonempty_tests(f) for f in frames]) if frames else set()
+        ctx.instance("R04.5", fi.where(app[0]), f"{short}: one append per page number under {sorted(ga) or 'no guard'}")
+        if not ga <= allowed:
+            ctx.gap("R04.5", f"{short}: the page append is conditioned on {sorted(ga - allowed)}")
     ctx.floor("R04.5", 3)
 
 
-def _anc(n, stop):
-    p = getattr(n, "_parent", None)
-    while p is not None and p is not stop:
-        yield p
-        p = getattr(p, "_parent", None)
-
+# ------------------------------------------------------------------------------------------------ R04.6
 
 def r04_6(ctx: Ctx) -> None:
     """every row adds >= 1 to current_rows (justifies C => I) and the heading rows travel with the row"""
     pm = ctx.pm
     c = pm.func("PageBreakCalculator.calculate_row_metadata")
-    env = {unparse(a.targets[0]): a.value for a in ast.walk(c.node) if isinstance(a, ast.Assign) and len(a.targets) == 1}
-    tr = [a for a in ast.walk(c.node) if isinstance(a, ast.Assign) and unparse(a.targets[0]) == "total_rows"]
-    ok = len(tr) == 1 and linform(tr[0].value) == {"max_lines_in_row": 1, "pageby_rows": 1, "subline_rows": 1}
-    ctx.instance("R04.6", c.where(tr[0]) if tr else c.where(), f"total_rows = {unparse(tr[0].value) if tr else '?'}")
-    if not ok:
-        ctx.violation("R04.6", c.short, "total_rows " + (unparse(tr[0].value) if tr else "?"), c.where(), "a row's height is not data lines + page_by heading rows + subline heading rows")
-    t = unparse(c.node)
-    ok1 = "max_lines_in_row = 1" in t and "max_lines_in_row = max(max_lines_in_row, lines_needed)" in t and "lines_needed = max(1, int(text_width / effective_width) + 1)" in t
-    ctx.instance("R04.6", c.where(), f"data lines start at 1 and only grow by max(): {ok1}")
-    if not ok1:
-        ctx.violation("R04.6", c.short, "data rows >= 1", c.where(), "a data row can be counted with less than one line")
-    ok2 = "'total_rows': total_rows" in t and "'data_rows': max_lines_in_row" in t
-    if not ok2:
-        ctx.violation("R04.6", c.short, "metadata fields", c.where(), "row metadata no longer records total_rows/data_rows as computed")
+    fn = c.node
+    try:
+        node, md = meta_fields(c)
+    except Unrecognised as e:
+        ctx.gap("R04.6", str(e))
+        return
+    need = ("total_rows", "data_rows", "pageby_header_rows", "subline_header_rows")
+    if not all(k in md for k in need):
+        ctx.gap("R04.6", f"the row metadata record lacks one of {need}")
+        return
+    row_loop = _enclosing_for(node, fn)
+    scope = row_loop if row_loop is not None else fn
+
+    def lin(e):
+        return lin_local(e, scope, fn)
+    tot = lin(md["total_rows"])
+    parts = {}
+    for k in need[1:]:
+        for t, co in lin(md[k]).items():
+            parts[t] = parts.get(t, 0) + co
+    ctx.instance("R04.6", c.where(md["total_rows"]), f"total_rows = {tot}; data + page_by heading + subline heading = {parts}")
+    if tot != parts:
+        ctx.violation("R04.6", c.short, "total_rows " + unparse(resolve(md["total_rows"], fn)), c.where(md["total_rows"]),
+                      "a row's height is not data lines + page_by heading rows + subline heading rows")
+    # data lines: start at a constant >= 1 and only grow by max(self, lines) where lines = max(1, ...)
+    d = md["data_rows"]
+    if not isinstance(d, ast.Name):
+        ctx.gap("R04.6", f"the data-row count `{unparse(d)}` is not a local accumulator")
+    else:
+        vals = assignments(fn).get(d.id, [])
+        ok1, low = bool(vals), None
+        for v in vals:
+            if isinstance(v, ast.Constant) and isinstance(v.value, int) and not isinstance(v.value, bool):
+                low = v.value if low is None else min(low, v.value)
+            elif isinstance(v, ast.Call) and dotted(v.func) == "max" and any(isinstance(x, ast.Name) and x.id == d.id for x in v.args):
+                pass
+            else:
+                ok1 = False
+        ctx.instance("R04.6", c.where(), f"data lines `{d.id}` start at {low} and only grow by max(): {ok1}")
+        if not ok1 or low is None:
+            ctx.gap("R04.6", f"the updates of the data-row count `{d.id}` could not be interpreted ({[unparse(v)[:40] for v in vals]})")
+        elif low < 1:
+            ctx.violation("R04.6", c.short, "data rows >= 1", c.where(), f"a data row can be counted with {low} lines")
     hr = pm.func("PageBreakCalculator._calculate_header_rows")
-    rets = [unparse(r.value) for r in walk_no_nested(hr.node) if isinstance(r, ast.Return)]
-    ctx.instance("R04.6", hr.where(), f"heading rows = {rets}")
-    if rets != ["max(1, int(text_width / total_width) + 1)"]:
-        ctx.violation("R04.6", hr.short, "heading rows " + str(rets), hr.where(), "a heading can be counted with less than one row")
+    rets = [r.value for r in walk_no_nested(hr.node) if isinstance(r, ast.Return) and r.value is not None]
+    ctx.instance("R04.6", hr.where(), f"heading rows = {[unparse(r) for r in rets]}")
+    for r in rets:
+        rr = resolve(r, hr.node)
+        if not (isinstance(rr, ast.Call) and dotted(rr.func) == "max" and any(isinstance(x, ast.Constant) and isinstance(x.value, int) and x.value >= 1 for x in rr.args)):
+            if isinstance(rr, ast.Constant) and isinstance(rr.value, int) and rr.value < 1:
+                ctx.violation("R04.6", hr.short, "heading rows " + unparse(rr), hr.where(), "a heading can be counted with less than one row")
+            else:
+                ctx.gap("R04.6", f"the heading row count `{unparse(rr)[:60]}` could not be recognised as >= 1")
+    if not rets:
+        ctx.gap("R04.6", "_calculate_header_rows returns nothing recognisable")
 
 
 def check(ctx: Ctx) -> None:
     ctx.explain(
-        "R04.1 the loop body of _assign_pages is evaluated as a decision table over the atoms subline start, group start, "
-        "new_page, i>0, current_rows>0, overflow (lazy discovery, 48 consistent rows): page counter increments exactly when "
-        "current_rows>0 ∧ (S ∨ (N∧G) ∨ O); page stored unconditionally with the post-increment number; current_rows reset/"
-        "accumulated; overflow guard and available rows compared as linear forms. R04.2 forced-break keyword arguments of the "
+        "R04.1 the loop body of _assign_pages (re-identified as the loop that stores each row's page) is evaluated as a decision "
+        "table over the atoms subline start, group start, new_page, i>0, current_rows>0, overflow (lazy discovery; atoms classified by "
+        "meaning with polarity; valuations violating the loop invariant current_rows>0 <=> i>0 skipped): page counter increments exactly when "
+        "current_rows>0 ∧ (S ∨ (N∧G) ∨ O); page stored with the post-increment number; current_rows reset/"
+        "accumulated; overflow guard and available rows compared as integer linear forms. R04.2 forced-break keyword arguments of the "
         "three strategies. R04.3 every row-indexed read in the pagination loops uses i or i-1 (prefix stability). R04.4 group "
         "change flags compare consecutive rows column by column. R04.5 pages materialised in ascending order from "
-        "[min,max] row ranges with slice length max-min+1, empty pages skipped. R04.6 every row adds >= 1.")
+        "[min,max] row ranges with slice length max-min+1. R04.6 every row adds >= 1.")
     ctx.assume("row heights computed by calculate_row_metadata are the heights the property refers to (see C03 for the estimator)")
+    ctx.assume("decision-table rows with current_rows>0 different from i>0 are infeasible: current_rows starts at 0 and every row adds >= 1 (R04.6)")
     ctx.undecided("where breaks fall for a concrete height vector (run-time arithmetic)")
     r04_1(ctx)
     r04_2(ctx)
